@@ -13,7 +13,9 @@ EXTENDS Writer, Json
 \* v9's (for backends without a footer), and going back from v9 to v1 makes the new output a prefix of the old file
 \* v10: the sources of v4 spread over many files, with OVERLAPPING directory arguments on the command line (a directory and
 \* two of its own sub-directories): a version is everything the output depends on, the directory arguments included
-MCVersions == {"v1", "v2", "v3", "v4", "v5", "v6", "v7", "v8", "v9", "v10"}
+\* v11: nothing but constants, one per source file, all in one crate: whatever orders the items of a crate has to order these too
+\* (for a backend without constants the version is a failing one; the harness says so per language)
+MCVersions == {"v1", "v2", "v3", "v4", "v5", "v6", "v7", "v8", "v9", "v10", "v11"}
 MCExtends == {<<"A1", "A9">>}
 MCFails == [v \in MCVersions |-> v = "v6"]
 MCGen == [v \in MCVersions |->
@@ -26,7 +28,8 @@ MCGen == [v \in MCVersions |->
       [] v = "v7" -> [a |-> "A1c", b |-> "B3c", codable |-> "CVc"]
       [] v = "v8" -> [a |-> "A8", b |-> "B8"]
       [] v = "v9" -> [a |-> "A9", b |-> "B1"]
-      [] v = "v10" -> [a |-> "A10", b |-> "B10"]]
+      [] v = "v10" -> [a |-> "A10", b |-> "B10"]
+      [] v = "v11" -> [a |-> "A11"]]
 \* bounds of the enumeration handed to the real binary (the model configurations fixed / bug / eager / prefix are unbounded):
 \* at most MaxDistinct different versions per history, and a history that starts on a placeholder has at most MaxAfterTouch runs
 CONSTANTS MaxDistinct, MaxAfterTouch
